@@ -7,7 +7,7 @@ use crate::proto::Ctx;
 pub fn meta() -> Meta {
     Meta {
         level: "model_checking",
-        rule: "every history of depth d (quick 4, thorough 5) over 13 actions on three handle registers (5 kind-specific operations, clone, 2 drops, gc, add_vars+new variable, reverse/rotate reordering, drop on another OS thread) for bdd, bcdd, zbdd, mtbdd, tdd, fresh manager per history, node stores of 32 (capacity probe) and 12 (failing operations); after every step: for every stored node ref_count() = #live handles + #stored parent edges (+ the ZBDD tautology chain), structure intact, every handle's table unchanged; after every gc: stored nodes = nodes reachable from live handles/manager data and the return value equals the drop in inner-node + terminal count; at the end of every history: drop everything + gc => initial node count (MTBDD: no terminals left) and the capacity probe (number of nodes creatable before OutOfMemory) equals that of a fresh manager, and with the store refilled to capacity the auditor accepts it and every probe diagram reads back as built. Extra configurations: MTBDD over F64; a one-variable constant-heavy MTBDD alphabet on a 6-entry terminal table; bdd/zbdd/mtbdd with every action issued from inside with_manager_shared of a second manager (the calling thread's store state is bound to that other manager). states = distinct model states, transitions = audited steps.",
+        rule: "every history of depth d (quick 4, thorough 5) over 13 actions on three handle registers (5 kind-specific operations, clone, 2 drops, gc, add_vars+new variable, reverse/rotate reordering, drop on another OS thread) for bdd, bcdd, zbdd, mtbdd, tdd, fresh manager per history, node stores of 32 (capacity probe) and 12 (failing operations); after every step: for every stored node ref_count() = #live handles + #stored parent edges (+ the ZBDD tautology chain), structure intact, every handle's table unchanged; after every gc: stored nodes = nodes reachable from live handles/manager data and the return value equals the drop in inner-node + terminal count; at the end of every history: drop everything + gc => initial node count (MTBDD: no terminals left) and the capacity probe (number of nodes creatable before OutOfMemory) equals that of a fresh manager, and with the store refilled to capacity the auditor accepts it and every probe diagram reads back as built. Extra configurations: MTBDD over F64; a one-variable constant-heavy MTBDD alphabet on a 6-entry terminal table; bdd/zbdd/mtbdd with every action issued from inside with_manager_shared of a second manager (the calling thread's store state is bound to that other manager). The capacity probe is filled from a short-lived helper thread every second time (slots freed by the calling thread must be available to any thread). states = distinct model states, transitions = audited steps.",
         assumptions: vec![
             "the automatic background collection (95 % high-water mark, condvar wake-up) is not driven here; its effect - gc() under a shared lock at an arbitrary point - is scheduled exhaustively in C07".into(),
             "terminal reference counts are not exposed by the API; they are covered through num_terminals after teardown".into(),
